@@ -251,8 +251,9 @@ func (l *vLkWrite) TryLock() bool {
 // touching the field under the lock runs beside the harness, so the unguarded access of the
 // counterexample path is a data race the detector sees.
 var (
-	vRaceMode bool
-	vRaceStop chan struct{}
+	vRaceMode   bool
+	vRaceShared bool // the report is a store under a read lock: touchers read under read locks only
+	vRaceStop   chan struct{}
 )
 
 func vGuardedBy(field any, lock any, name string) {
@@ -274,9 +275,20 @@ func vGuardedBy(field any, lock any, name string) {
 				return
 			default:
 			}
-			l.Lock()
-			v.Set(v) // read and write the field, under its lock
-			l.Unlock()
+			if rl, ok := lock.(interface {
+				RLock()
+				RUnlock()
+			}); ok && vRaceShared {
+				// a store made under a read lock is unordered with other read-lock holders (and a
+				// toucher that took the lock exclusively would order everything through itself)
+				rl.RLock()
+				reflect.New(v.Type()).Elem().Set(v) // read the field, under its lock held shared
+				rl.RUnlock()
+			} else {
+				l.Lock()
+				v.Set(v) // read and write the field, under its lock
+				l.Unlock()
+			}
 			once.Do(func() { close(started) })
 			time.Sleep(20 * time.Microsecond)
 		}
